@@ -11,6 +11,7 @@ import Model.Convert
 import Model.Quantity
 import Model.Measure
 import Model.Text
+import Model.Names
 
 namespace Measured
 
@@ -47,6 +48,8 @@ structure World (α : Type) where
   ms : Array (Meas α) := #[]
   ls : Array (Mag α × Nat) := #[]
   lus : Array (LogUnit α) := #[]
+  ptab : NTab Pfx := { objs := [] }                 -- Prefix._known / _by_name / _by_symbol
+  dtab : NTab Dim := { objs := [], regSyms := false } -- Dimension._known / _by_name
 
 namespace World
 
